@@ -268,6 +268,16 @@ func propC01(rec *stats.Rec, sc *scratch, auto bool) func(t *rapid.T) {
 					}
 				}
 			}
+			if rapid.IntRange(0, 3).Draw(t, "sameSizeSameTimes") == 0 {
+				// same size, same modification time, same inode - other content
+				if err := l.RewriteSameSizeSameTimes(c.d, c.n); err != nil {
+					t.Skip(err.Error())
+				}
+				extraLabels = append(extraLabels, "rewritten-in-place-with-size-and-mtime-unchanged")
+				lastRewritten = [2]any{c.d, c.n}
+				mutated = fmt.Sprintf("rewriteInPlace (same size, mtime restored) %s/%s", l.Pool[c.d].Name, c.n)
+				return
+			}
 			var f *layout.File
 			if rapid.IntRange(0, 3).Draw(t, "invalid") == 0 {
 				f = l.NewInvalidFile(t, "rw", l.Pool[c.d].Name, c.n)
